@@ -8,6 +8,6 @@ if ! git diff --quiet; then echo "/repo has uncommitted changes; refusing"; exit
 git apply "$patch" || { echo "patch does not apply"; exit 2; }
 trap 'git -C /repo checkout -- . ' EXIT
 for p in "$@"; do
-  out=$(/verif/run.sh "$p" quick 2>&1); code=$?
+  out=$(timeout 900 /verif/run.sh "$p" quick 2>&1); code=$?
   if [ $code -ne 0 ]; then echo "== $p FIRED (exit $code)"; echo "$out" | grep -v '^VIOLATION' | grep -v '^KNOWN-FINDING' | head -8; else echo "== $p MISSED"; fi
 done
